@@ -383,6 +383,10 @@ type c13Stats struct {
 }
 
 // c13Check runs one byte string under all its splittings. Returns "" or the violation with the failing case.
+// c13CutFilter, when set, restricts the single-cut splittings that c13Check tries (large event strings: every cut
+// position of a 90 KB string would be 90 000 cases per string; classes of positions are enough there).
+var c13CutFilter func(pos, total int) bool
+
 func c13Check(st *c13Stats, kind string, evs []c13Ev, maxCuts int) (string, *c13Case) {
 	total := 0
 	for _, e := range evs {
@@ -424,6 +428,9 @@ func c13Check(st *c13Stats, kind string, evs []c13Ev, maxCuts int) (string, *c13
 	}
 	if maxCuts >= 1 {
 		for a := 1; a < total; a++ {
+			if c13CutFilter != nil && !c13CutFilter(a, total) {
+				continue
+			}
 			if v, c := try([]int{a}); v != "" {
 				return v, c
 			}
@@ -791,6 +798,52 @@ func TestVerif_C13(t *testing.T) {
 						break
 					}
 				}
+			}
+		}
+	}
+	// 2b. LARGE events: more control traffic than the connection's 64 KiB read buffer holds, so that the buffer has to be
+	// compacted and grown while part of an event is pending: three well-formed fallback-data events of 30 000 bytes each
+	// (and a 70 000-byte one between two small ones), one cut at every 499th position and around every event boundary
+	{
+		big := func(stream uint32, n int, seed byte) c13Ev {
+			pl := append(u32(stream), u32(uint32(streamOpened))...)
+			for i := 0; i < n; i++ {
+				pl = append(pl, seed+byte(i*7))
+			}
+			return c13Ev{Type: uint8(typeFallbackData), Version: protoVersion, Len: -1, Payload: pl}
+		}
+		seqs := [][]c13Ev{
+			{big(2, 30000, 1), big(2, 30000, 2), big(2, 30000, 3)},
+			{big(2, 100, 1), big(2, 70000, 2), big(2, 100, 3), {Type: uint8(typePolling), Version: protoVersion, Len: -1}},
+			{big(2, 45000, 1), big(5, 20000, 2), big(2, 500, 3)},
+		}
+		for _, k := range kinds {
+			for _, evs := range seqs {
+				n++
+				if n%w.shardN != w.shardI {
+					continue
+				}
+				bounds := map[int]bool{}
+				off := 0
+				for _, e := range evs {
+					off += len(e.bytes())
+					for d := -2; d <= headerSize+9; d++ {
+						bounds[off+d] = true
+					}
+				}
+				c13CutFilter = func(pos, total int) bool { return pos%499 == 0 || bounds[pos] || pos < 20 || pos > total-20 }
+				v, c := c13Check(st, k, evs, 1)
+				c13CutFilter = nil
+				if v != "" {
+					if len(v) > 900 {
+						v = v[:900] // (the event dump of a large case is long)
+					}
+					if c != nil {
+						c.Events = nil // replay identifies the case by kind and cut; the events are rebuilt
+					}
+					fail(v, c)
+				}
+				res.Outcomes["large-events"]++
 			}
 		}
 	}
